@@ -24,11 +24,10 @@ Theorem barrier_round_safety_refuted :
 Proof.
   exists 3, [2; 2; 2]%nat, w_state.
   pose proof w_facts as [Hr [He [Ha _]]].
-  repeat split; try assumption.
-  - exact w_reach.
-  - exact (ireach_base _ _ _ w_reach).
-  - exists 0. rewrite Hr. cbn. auto.
-  - exact w_not_round_safe.
+  split; [reflexivity|]. split; [reflexivity|]. split; [exact w_reach|].
+  split; [exact (ireach_base _ _ _ w_reach)|].
+  split; [exists 0; rewrite Hr; cbn; auto|].
+  split; [exact He|]. split; [exact Ha|exact w_not_round_safe].
 Qed.
 Print Assumptions barrier_round_safety_refuted.
 
@@ -43,8 +42,7 @@ Theorem barrier_single_consumer_refuted :
 Proof.
   exists 3, [1; 1; 1; 1; 1; 1]%nat, (base c_state), 2%nat, 5%nat.
   pose proof c_facts as [H2 H5].
-  repeat split; try assumption.
-  - exact (ireach_base _ _ _ c_reach).
-  - discriminate.
+  split; [reflexivity|]. split; [exact (ireach_base _ _ _ c_reach)|].
+  split; [discriminate|]. split; [exact H2|exact H5].
 Qed.
 Print Assumptions barrier_single_consumer_refuted.
